@@ -1,5 +1,6 @@
 import PdfVerif.Lemmas.CONCRuns
 import PdfVerif.Lemmas.CONCLive
+import PdfVerif.Lemmas.CONCMarker
 /-!
 # C18 — `exclusive_runs_once` and `exclusive_progress`
 
@@ -112,5 +113,44 @@ example :
   refine ⟨?_, by decide⟩
   simp [GuardedRun, SinkGuard, step, canCall, exclCall, decLoop, State.init, upd, exclCount, isExcl,
     maxDepth, Gen.limits_MaxExtractDepth, retDec, deliver, deliverStack]
+
+/-! ## marker_released -/
+
+theorem xm_reachable (cfg : Cfg) (ls : List Label) (s : State)
+    (h : run cfg State.init ls = some s) : XInv s ∧ MInv s :=
+  run_inv cfg (fun _ => True) (fun s => XInv s ∧ MInv s)
+    (fun _ _ _ _ _ hi hs => ⟨hi.1.step hs, MInv.step hi.1 hi.2 hs⟩) ls State.init s
+    (fun _ _ => trivial) ⟨XInv.init, MInv.init⟩ h
+
+/-- `marker_released`: on every exit path of `DecodeExclusive` — return, error, panic of the decode
+function, `runtime.Goexit` — the in-progress marker is cleared and `done` is closed.  As an
+invariant over ALL traces (no guard: decode functions may panic at any point, in any nesting):
+(1) a `wip` entry always names a pending which is not closed and whose owner frame is alive in
+some thread's stack; (2) every pending which is not closed — i.e. every pending a waiter can be
+blocked on — has a live owner.  So no caller ever waits for an owner that is gone. -/
+theorem marker_released (cfg : Cfg) (ls : List Label) (s : State)
+    (h : run cfg State.init ls = some s) :
+    (∀ k p, s.wip k = some p → (s.pend p).done = false ∧ ∃ t, p ∈ owned (s.thr t)) ∧
+    (∀ p, p < s.npend → (s.pend p).done = false → ∃ t, p ∈ owned (s.thr t)) := by
+  obtain ⟨hx, hm⟩ := xm_reachable cfg ls s h
+  refine ⟨fun k p hk => ?_, hm.live⟩
+  have hd := hm.undone k p hk
+  exact ⟨hd, hm.live p (hx.wipb k p hk) hd⟩
+
+/-- the audit's scenario: thread 0 owns `(r1, type 0)`, thread 1 waits; the owner's decode
+function panics.  The waiter is released with the abort error, the marker is gone, and a later
+exclusive decode of the reference runs afresh and succeeds. -/
+example :
+    let cfg : Cfg := ⟨fun _ => .direct, true⟩
+    let ls : List Label :=
+      [(0, .callExcl (.ref 1) 0 []), (1, .callExcl (.ref 1) 0 []), (0, .go), (0, .go),
+       (0, .fnRet .panic), (1, .go),
+       (2, .callExcl (.ref 1) 0 []), (2, .go), (2, .go), (2, .fnRet (.ok 7)), (2, .go), (2, .go), (2, .go)]
+    (run cfg State.init ls).map (fun s => (s.thr 0, s.thr 1, s.thr 2)) = some ([.dead], [], []) ∧
+    (run cfg State.init ls).map (fun s => s.wip (1, 0)) = some none ∧
+    (run cfg State.init ls).map (fun s => s.hist.take 1) = some [.exc 2 (.ref 1) 0 (.ok 7) (some 1)] ∧
+    (run cfg State.init ls).map (fun s => s.hist.filter fun e => match e with | .exc 1 _ _ _ _ => true | _ => false)
+      = some [.exc 1 (.ref 1) 0 (.err .aborted) (some 0)] := by
+  refine ⟨by decide, by decide, by decide, by decide⟩
 
 end PdfVerif.C18concL
